@@ -261,7 +261,7 @@ func TestVerifC44Dual(t *testing.T) {
 		}
 	}
 	// op sequences: writes / deletes / listings must only ever touch the primary
-	n := r.N(300, 5000)
+	n := r.N(300, 50000)
 	for ci := 0; ci < n; ci++ {
 		rng := r.Rand(ci)
 		primary, replica := newC44Store("primary"), newC44Store("replica")
